@@ -99,4 +99,31 @@ CHECKS["C08"] = {
             "preconditions checked by C02's ground obligations; diff/ptp/ediff1d helpers not yet under contract",
     "technique": TECH,
 }
+HANDLER_NOTE = ("; numpy's private implementations are uninterpreted functions (congruence only), their "
+                "signatures are read with inspect from the verifier interpreter's NumPy; a converted copy made by "
+                "in_units counts as the same argument; handlers whose result depends on flags or shapes beyond the "
+                "degree table (histogram*, prod, logspace, apply_over_axes, cumprod) and the ~240 functions without a "
+                "handler (NumPy's own code runs) are covered by the bounded driver only")
+CHECKS["C06"] = {
+    "category": "proof",
+    "text": "forwarding by congruence for the @implements handlers (about 90 of the 98, every flag value and out= "
+            "variant): with numpy's implementations uninterpreted, every value a handler returns and every out= target "
+            "is proved to originate from the implementation of exactly the function named in the handler's decorator "
+            "(read from the source), applied to the caller's arguments stripped of units, argument by argument through "
+            "NumPy's signature; attaching units (Unit.__mul__ data path, bypass constructor) is proved not to touch "
+            "values; the bounded driver differential-tests the whole numpy / linalg / fft catalogue (311 entries) on the "
+            "real package",
+    "note": TRUST + HANDLER_NOTE,
+    "technique": TECH,
+}
+CHECKS["C07"] = {
+    "category": "proof",
+    "text": "unit bookkeeping of every handler proved against independent homogeneity degrees (spec/numpy_algebra.py): "
+            "units(result) = prod(units(arg)**degree) in scale and dimension for all units (det with the symbolic matrix "
+            "order, einsum multilinear, lstsq/eig/svd component-wise), index/boolean results carry no units, merged "
+            "arguments are reached only with equal units; covariance under re-expression then follows from NumPy's "
+            "homogeneity (assumed, conformance-tested bit-exactly by the bounded driver with dyadic unit systems)",
+    "note": TRUST + HANDLER_NOTE,
+    "technique": TECH,
+}
 NOT_APPLICABLE = {}
